@@ -37,6 +37,7 @@ TOKENS = {
     "now()": "d", "concat('a','b')": "d", "${t0}": "d", "1 + 2": "d", "3 * 4": "d", "5 div 2": "d",
     "7 mod 2": "d", "2 - 1": "?", "${t0} + 1": "d", "if(${t0} = 1, 'a', 'b')": "d",
     # a function call or a reference makes the default an expression whatever follows it (also a minus, also for date-like types)
+    "-.5": "s", ".5": "s", "-0.25": "s", "1e3": "s",
     "today() - 7": "d", "${t0} - 1": "d", "now() - 0.04": "d", "date(decimal-date-time(today()) - 7)": "d",
 }
 CHOICES = [{"list_name": "c", "name": "abc", "label": "X"}, {"list_name": "c", "name": "y", "label": "Y"}]
@@ -90,6 +91,14 @@ def expand(block, tier):
                             continue  # a calculate row without calculation is (rightly) refused
                         for tt in ttypes:
                             yield {"k": "trigger", "f": fj, "t": ti, "x": xi, "type": ty, "calc": calc, "tt": tt}
+        # one trigger, two targets: one with a calculation, one without (either sheet order), or both with different ones
+        for ti in qs:
+            for xi in qs:
+                for yi in qs:
+                    if len({ti, xi, yi}) < 3 or xi > yi:
+                        continue
+                    for calcs in (("${t0} + 1", None), (None, "${t0} + 1"), ("${t0} + 1", "now()"), (None, None)):
+                        yield {"k": "trigger2", "f": fj, "t": ti, "x": xi, "y": yi, "calcs": list(calcs)}
 
 
 def required_outcomes(tier):
@@ -131,6 +140,11 @@ def build(case):
                         r["calculation"] = case["calc"]
                 elif case["k"] == "trigger" and i == case["t"]:
                     r["type"] = case["tt"]
+                elif case["k"] == "trigger2" and i in (case["x"], case["y"]):
+                    calc = case["calcs"][0 if i == case["x"] else 1]
+                    r = {"type": "text", "name": nm, "label": nm, "trigger": "${%s}" % NAMES[case["t"]]}
+                    if calc:
+                        r["calculation"] = calc
                 rows.append(r)
             else:
                 kind = "group" if t[0] == "g" else "repeat"
@@ -154,6 +168,8 @@ def check_one(case):
     obs = O.Obs(out.xform)
     if case["k"] == "default":
         return check_default(case, nodes, obs, ntr)
+    if case["k"] == "trigger2":
+        return check_trigger2(case, nodes, obs, ntr)
     return check_trigger(case, nodes, obs, ntr)
 
 
@@ -229,6 +245,43 @@ def check_default(case, nodes, obs, ntr):
     if others:
         viol.append(("stray-setvalue", str(others)))
     return {"outcome": outcome, "nt": bool(reps) and not viol, "viol": viol, "tr": ntr}
+
+
+def check_trigger2(case, nodes, obs, ntr):
+    """one triggering question, two triggered targets: each gets exactly its own action with exactly its own value"""
+    T = nodes[case["t"]]
+    pt = "/" + "/".join(T["path"])
+    viol = []
+    targets = {}
+    for key, calc in zip(("x", "y"), case["calcs"]):
+        X = nodes[case[key]]
+        targets["/" + "/".join(X["path"])] = (X, calc)
+    for px, (X, calc) in targets.items():
+        acts = [(el, par, tag) for el, par, tag in all_setvalues(obs) if el.get("ref") == px]
+        if len(acts) != 1:
+            viol.append(("trigger2-action-count", f"{len(acts)} actions target {px}"))
+            continue
+        el, par, tag = acts[0]
+        if par == "model" or par is None or par.get("ref") != pt:
+            viol.append(("trigger2-action-not-nested-in-trigger-control", f"{px}"))
+        if calc:
+            subs = align(calc, el.get("value") or "")
+            if subs is None:
+                viol.append(("trigger2-value-of-another-target-or-altered", f"{px}: {calc!r} -> {el.get('value')!r}"))
+            else:
+                for raw in subs:
+                    p = Path(raw)
+                    if not p.ok or p.resolve(X["path"]) != ["data", "t0"]:
+                        viol.append(("trigger2-value-reference-wrong", raw))
+        elif el.get("value") not in (None, ""):
+            viol.append(("trigger2-value-invented", f"{px}: value={el.get('value')!r} but the row has no calculation"))
+        b = obs.bind_map().get(px, [None])[0]
+        if b is not None and b.get("calculate") is not None:
+            viol.append(("triggered-calculation-also-on-bind", b.get("calculate")))
+    others = [el.get("ref") for el, par, tag in all_setvalues(obs) if el.get("ref") not in targets]
+    if others:
+        viol.append(("stray-setvalue", str(others)))
+    return {"outcome": "trigger-ok", "nt": not viol, "viol": viol[:4], "tr": ntr}
 
 
 def check_trigger(case, nodes, obs, ntr):
